@@ -7,6 +7,8 @@
 (*  kind "inner": deblob:{ok, panic} (DeBlobProgramCode)                            *)
 (*                run:{ran, kind: "halt"|"panic"|"oog"|"fault"|"host"|"other", used, panic}       *)
 (*                machine:{exit, w7:[8], panic}, invoke:{ran, exit, w7:[8], gasleft, panic}       *)
+(*                aux:{ran, pages, poke, peek, expunge (exits), codes, same, panic}  - the other  *)
+(*                inner-machine calls on the fresh machine: pages(n,16,2,RW), poke, peek, expunge *)
 (* Required (statement of C03): no Go panic, no hang, no process death; outcome in   *)
 (* the defined class - panic / HUH for a malformed blob, any defined PVM outcome for *)
 (* a well-formed one; gas used within [0, limit]; allocation <= K + c * declared.    *)
@@ -21,6 +23,8 @@ Trace == ndJsonDeserialize(TraceFile)
 
 HUH == <<247, 255, 255, 255, 255, 255, 255, 255>>
 InnerCodes == {Nat8(i) : i \in 0..4}        \* HALT, PANIC, FAULT, HOST, OOG
+
+DefinedHostExit(r) == r \in {"continue", "panic", "oog"}
 
 Common(e, declaredK) ==
   (IF e.hang THEN {"hang"} ELSE {})
@@ -58,6 +62,10 @@ InnerReasons(e) ==
         ELSE IF e.invoke.exit # "continue" THEN {"invoke_exit"}
         ELSE IF e.invoke.w7 \notin InnerCodes THEN {"invoke_result"}
         ELSE IF e.invoke.gasleft > e.gas THEN {"invoke_gas"} ELSE {})
+  \cup (IF e.aux.panic # "" THEN {"go_panic_inner_hostcall"}
+        ELSE IF ~e.aux.ran \/ e.hang \/ e.mem \/ e.died # "" THEN {}
+        ELSE IF \E r \in {e.aux.pages, e.aux.poke, e.aux.peek, e.aux.expunge} : ~DefinedHostExit(r) THEN {"inner_hostcall_exit"} ELSE {})
+        \* which result code (OK expected: fresh machine, pages 16..17 made writable, poke then peek of <= 64 bytes) is C33's business
 
 \* heap growth reported by the driver (bytes >> 10), only for kind "std"
 RelaxedAllocOk(e) == AllocOk(e.allocK, DeclaredStdKiB(e.blob, e.al) + e.heapK)
